@@ -74,6 +74,8 @@ structure Num (α : Type) where
   big : α           -- 1e300
   zero : α          -- 0.0
   idx : Nat → α     -- the number an epoch index is
+  logDom : α → Bool := fun _ => true
+                    -- `math.log x` is defined (x > 0, or x is NaN); elsewhere it raises ValueError
   stXYZ : Nat → α × α × α := fun s => (idx s, zero, zero)
                     -- coordinates of the state object `s` when states are positions (read through `x`, `y`, `z`
                     -- after a decoding in mode 3, 4, 5); a constant of the session: `estimate` never writes a state
@@ -257,11 +259,31 @@ structure ObjS (α : Type) where
 /-- the object `estimate` works with once every `S(track, k)` has a length -/
 def ObjS.toObj (h : ObjS α) : Obj α := { S := fun tr k => (h.S tr k).items, Q := h.Q, P := h.P, log := h.log }
 
-/-- `HMM.estimate` for any return type of `S` -/
+/-- `math.log` outside its domain. `Qlog` / `Plog` evaluate `math.log(v + 1e-300)` for EVERY candidate of every epoch
+and every pair of candidates of consecutive epochs (first column, then the forward loops, all before the backward
+step, i.e. before anything is written); `v + 1e-300 ≤ 0` — a negative "likelihood" — raises `ValueError`. With the
+flag set nothing is converted. `h` is the object with the flag of this call. -/
+def domainError [Add α] (nm : Num α) (h : Obj α) (tr : Trk α) (STATES : List (List Nat))
+    (OBS : List (List (ObsItem α))) : Bool :=
+  !h.log && (List.range STATES.length).any fun k =>
+    ((STATES.getD k []).any fun s => !nm.logDom (h.P s (OBS.getD k []) k tr + nm.eps)) ||
+    (decide (k + 1 < STATES.length) && (STATES.getD k []).any fun s1 => (STATES.getD (k+1) []).any fun s2 =>
+      !nm.logDom (h.Q s1 s2 k tr + nm.eps))
+
+/-- `HMM.estimate` for any return type of `S` and any numbers returned by `P`, `Q`: `TypeError` when some
+`S(track, k)` has no length; otherwise, when the observations can be compiled and the track is not empty, `ValueError`
+when a value that is to be converted is outside the domain of `math.log`; otherwise `estimate` on the items. -/
 def estimateS [Add α] [Neg α] [LT α] [DecidableLT α] (nm : Num α) (h : ObjS α) (tr : Trk α)
     (obs : List String) (log : Bool) (mode : Nat) : ObjS α × Trk α × Option Err :=
   if (List.range tr.size).all (fun k => (h.S tr k).isSized) then
-    let r := estimate nm h.toObj tr obs log mode
-    ({ h with log := r.1.log }, r.2.1, r.2.2)
+    let o := h.toObj
+    let dom := match (List.range tr.size).mapM (fun k => getObsK nm tr obs k mode) with
+      | .ok OBS => tr.size != 0 &&
+          domainError nm { o with log := o.log || log } tr ((List.range tr.size).map (o.S tr)) OBS
+      | .error _ => false
+    if dom then ({ h with log := h.log || log }, tr, some .value)
+    else
+      let r := estimate nm o tr obs log mode
+      ({ h with log := r.1.log }, r.2.1, r.2.2)
   else ({ h with log := h.log || log }, tr, some .type)
 end TV.Hmm
